@@ -1,10 +1,44 @@
-import Pendulum.Drv.Util
-/-! request handler for property C06 (stub until the property is built) -/
+import Pendulum.Drv.DTUtil
+import Pendulum.Model.PreciseDiff
+import Pendulum.Model.IntervalPD
+/-! C06 requests:
+`c06pd <py|rs> <y m d h mi s us off tag isdt> <y m d h mi s us off tag isdt>` → `ok <8 components>`
+`c06iv <py|rs> <zrefA> <wallA> <foldA> <zrefB> <wallB> <foldB> <absolute>` → `ok <10 getters> R <wall> <off> V <10 getters of the reversed interval>` (R = `start + iv`)
+zone references as in `DTUtil`, plus `d` for a `Date` pair. -/
 namespace Pendulum.Drv.C06
-open Pendulum Pendulum.Drv
+open Pendulum Pendulum.Drv Pendulum.DTOps Pendulum.PreciseDiff Pendulum.IntervalPD
 
-def handle (_zs : Zones) (ws : List String) : Option String :=
+def mkE : List Int → Option E
+  | [y, m, d, h, mi, s, us, off, tz, dt] => some ⟨y, m, d, h, mi, s, us, off, tz, dt != 0⟩
+  | _ => none
+
+/-- zone tag of a wire zone reference: naive/Date 0, named zone index+1, FixedTimezone (named "+hh:mm") 10^9+offset -/
+def tagOf (w : String) : Option Int :=
+  if w == "n" || w == "d" then some 0
+  else if w.startsWith "f" then (w.drop 1).toString.toInt?.map (fun o => 1000000000000 + o)
+  else w.toNat?.map (fun i => (i : Int) + 1)
+
+def parseEP (zs : Zones) (z w f : String) : Option EP := do
+  let tag ← tagOf z
+  let v ← parseV zs (if z == "d" then "n" else z) w f
+  some ⟨v, tag, z != "d"⟩
+
+def handle (zs : Zones) (ws : List String) : Option String :=
   match ws with
+  | "c06pd" :: b :: rest => do
+    let xs ← ints rest
+    let a ← mkE (xs.take 10)
+    let c ← mkE (xs.drop 10)
+    some (okInts (if b == "rs" then preciseDiffRs a c else preciseDiffPy a c).toList)
+  | ["c06iv", b, za, wa, fa, zb, wb, fb, ab] => do
+    let a ← parseEP zs za wa fa
+    let c ← parseEP zs zb wb fb
+    let iv := IntervalPD.mk (b == "rs") a c (ab == "1")
+    let r := match iv.rebuild with
+      | .ok v => " R " ++ toString v.w ++ " " ++ toString v.offset
+      | .error e => " E " ++ e.name
+    let rv := IntervalPD.mk (b == "rs") c a (ab == "1")
+    some (okInts iv.components ++ r ++ " V" ++ (okInts rv.components).drop 2)
   | _ => none
 
 end Pendulum.Drv.C06
